@@ -623,7 +623,15 @@ impl FunctionCompiler<'_> {
                     let referenced_block_ty =
                         self.tys[self.loc][self.world_bodies[self.loc.file()][label]];
 
-                    self.compile_and_cast(value, referenced_block_ty)
+                    let value = self.compile_and_cast(value, referenced_block_ty);
+
+                    // the defers between here and the block that is left run before the value
+                    // arrives there
+                    if self.defer_stack.iter().any(|frame| !frame.defers.is_empty()) {
+                        self.snapshot_aggregate(value, referenced_block_ty)
+                    } else {
+                        value
+                    }
                 });
 
                 self.break_to_label(value, label);
@@ -679,6 +687,28 @@ impl FunctionCompiler<'_> {
 
     /// This pushes a final jump instruction to the block, meaning additional operations
     /// won't be allowed in the current block
+    /// The value of an aggregate is its address. When defers still run between evaluating a
+    /// block's value and handing it on, they may change what is behind that address
+    /// (`p := ..; defer { p.a = 9; }; p`). The value is copied to a place of its own first,
+    /// so aggregates behave like scalars, which were loaded before the defers ran.
+    fn snapshot_aggregate(&mut self, value: Option<Value>, ty: Intern<Ty>) -> Option<Value> {
+        let value = value?;
+
+        if !ty.is_aggregate() || ty.is_zero_sized() {
+            return Some(value);
+        }
+
+        let stack_slot = self.builder.create_sized_stack_slot(StackSlotData {
+            kind: StackSlotKind::ExplicitSlot,
+            size: ty.size(),
+            align_shift: ty.align_shift(),
+        });
+        let memory = MemoryLoc::from_stack(stack_slot, 0);
+        memory.write_all(Some(value), ty, self.module, &mut self.builder);
+
+        Some(memory.into_value(&mut self.builder, self.ptr_ty))
+    }
+
     fn break_to_label(&mut self, value: Option<Value>, label: hir::ScopeId) {
         let exit_block = self.exits[&label];
 
@@ -1474,6 +1504,12 @@ impl FunctionCompiler<'_> {
                         .expect("we just pushed this")
                         .defers
                         .clone();
+
+                    let value = if !defers.is_empty() && !no_load {
+                        self.snapshot_aggregate(value, expr_ty)
+                    } else {
+                        value
+                    };
                     // do it in reverse to make sure later defers can still rely on the allocations of
                     // previous defers
                     for defer in defers.iter().rev() {
